@@ -29,6 +29,15 @@ func init() {
 			// corpus: two same-named keys that both accept the value (finding F10)
 			out = append(out, runC12(c12Desc{Case: UCase{Cfg: UCfg{Defs: []UDef{{Kind: "k1", Keys: []int{2, 39}}}, Reg: []int{0}},
 				Doc: &UDoc{Msg: "m", Kind: "k1", Fields: map[string]int{"n": 7}}}})...)
+			// corpus: two causes of one kind carrying a good then a bad value for the same field name
+			out = append(out, runC12(c12Desc{Case: UCase{Cfg: UCfg{Defs: []UDef{{Kind: "k1", Keys: []int{13}}}, Reg: []int{0}},
+				Doc: &UDoc{Msg: "m", Kind: "k1", Causes: []*UDoc{
+					{Msg: "a", Kind: "k1", Fields: map[string]int{"f32": 8}},
+					{Msg: "b", Kind: "k1", Fields: map[string]int{"f32": 1}},
+					{Msg: "c", Kind: "k1", Fields: map[string]int{"f32": 8}}}}}})...)
+			// corpus: case variants of a custom key's name
+			out = append(out, runC12(c12Desc{Case: UCase{Cfg: UCfg{Defs: []UDef{{Kind: "k1"}}, Reg: []int{0}, Custom: []int{2}},
+				Doc: &UDoc{Msg: "m", Kind: "k1", Fields: map[string]int{"n": 7, "N": 12}}}})...)
 			for i := 0; i < n; i++ {
 				c := UCase{Cfg: genUCfg(r), Doc: genUDoc(r, 1+i*3/n)}
 				if len(c.Cfg.Reg) > 0 {
